@@ -47,7 +47,7 @@ package db
 //@ func sequenceAllocator.releaseSequenceRange
 //@   requires s != nil
 //@   requires[reserved-only] forall x uint64 :: {x in reservedAll} fromSequence <= x && x <= toSequence ==> x in reservedAll
-//@   modifies published, publishFailed
+//@   modifies published, publishFailed, releaseAttempted
 //@   ensures[nothing]   (toSequence == 0 || toSequence < fromSequence) ==> result0 == 0 && isNilErr(result1) && published == old(published) && publishFailed == old(publishFailed)
 //@   ensures[count]     !(toSequence == 0 || toSequence < fromSequence) && isNilErr(result1) ==> result0 == toSequence - fromSequence + 1
 //@   ensures[published] !(toSequence == 0 || toSequence < fromSequence) && isNilErr(result1) ==> published == union(old(published), interval(fromSequence, toSequence)) && publishFailed == old(publishFailed)
@@ -82,7 +82,7 @@ package db
 
 //@ func sequenceAllocator._releaseCurrentBatch
 //@   requires s != nil && allocInv(s)
-//@   modifies published, publishFailed, s.last
+//@   modifies published, publishFailed, releaseAttempted, s.last
 //@   ensures[inv]      allocInv(s)
 //@   ensures[released] isNilErr(err) ==> s.last == s.max && s.max == old(s.max) && (forall x uint64 :: {x in published} old(s.last) < x && x <= old(s.max) ==> x in published)
 //@   ensures[count]    isNilErr(err) ==> numReleased == old(s.max) - old(s.last)
@@ -94,14 +94,14 @@ package db
 // or its publication was attempted and failed (the documented fall-back to skipped-sequence handling).
 //@ func sequenceAllocator.releaseUnusedSequences
 //@   requires s != nil && allocInv(s)
-//@   modifies published, publishFailed, s.last, s.sequenceBatchSize
+//@   modifies published, publishFailed, releaseAttempted, s.last, s.sequenceBatchSize
 //@   ensures[inv]       allocInv(s)
 //@   ensures[drained]   s.last == s.max && s.max == old(s.max)
 //@   ensures[accounted] forall x uint64 :: {x in published} {x in publishFailed} old(s.last) < x && x <= old(s.max) ==> (x in published) || (x in publishFailed)
 
 //@ func sequenceAllocator.nextSequenceGreaterThan
 //@   requires s != nil && allocInv(s) && existingSequence < 18446744073709551615
-//@   modifies syncCounter, reservedAll, published, publishFailed, s.max, s.last, s.sequenceBatchSize, s.lastSequenceReserveTime
+//@   modifies syncCounter, reservedAll, published, publishFailed, releaseAttempted, s.max, s.last, s.sequenceBatchSize, s.lastSequenceReserveTime
 //@   ensures[inv]         allocInv(s)
 //@   ensures[above-floor] isNilErr(err) ==> sequence > existingSequence
 //@   ensures[handed]      isNilErr(err) ==> sequence <= s.last && !(sequence in published) && (sequence in reservedAll)
@@ -130,6 +130,7 @@ package db
 //@ func DatabaseCollectionWithUser.updateAndReturnDoc
 //@   props C07 C11
 //@   modifies *
+//@   only-contracts releaseSequence, sequences, IsTimeoutError
 //@   ensures[release-doc-seq] called(WriteUpdateWithXattrs, 1) && !isNilErr(callres(WriteUpdateWithXattrs, 1, 1)) && !isTimeoutErr(callres(WriteUpdateWithXattrs, 1, 1)) && docSequence > 0 ==> (docSequence in releaseAttempted)
 //@   ensures[release-unused]  called(WriteUpdateWithXattrs, 1) && !isNilErr(callres(WriteUpdateWithXattrs, 1, 1)) && !isTimeoutErr(callres(WriteUpdateWithXattrs, 1, 1)) ==> (forall k int :: {unusedSequences[k]} 0 <= k && k < len(unusedSequences) ==> (unusedSequences[k] in releaseAttempted))
 //@   ensures[surfaces]        called(WriteUpdateWithXattrs, 1) && !isNilErr(callres(WriteUpdateWithXattrs, 1, 1)) && callres(WriteUpdateWithXattrs, 1, 1) != box(base.ErrUpdateCancel) ==> !isNilErr(err)
